@@ -2,22 +2,29 @@
    Every case is one refusing (or accepting) call on a real builder, together with the part of the
    builder state the call reads (hierarchy as a parent table, case table, exit type, declared outputs,
    type parameters, port kind, tracked table, guarded fields of the operations) and the observed
-   exception class.  Types are interned by Python's == (T := N). *)
+   exception class.  Only what the property promises is a verdict: an error (of the documented class where
+   one is documented) for an inconsistent call, none for a consistent one, anything outside the property's
+   domain.  The state after a refusal, the order edges of accepted wires and the builders' private
+   bookkeeping are diagnostics of the harness, not part of a case. *)
 From Coq Require Import ZArith NArith List Bool Arith.
 Import ListNotations.
 From HV Require Export lib.Harness model.Tracked model.BuilderErr spec.BuilderErrS.
 
 Inductive oexc := XNone | XErr (e : eclass) | XOther.
 
+(* Types are numbers 16 * c + s: c = class of the type under Python's == (the comparison the builders use),
+   s = its spelling.  Rows that are == but spelled differently (Unit / Tuple(), Bool / Sum([[], []])) neither
+   clearly agree nor clearly disagree: the property does not say which spellings denote the same type, so
+   any outcome is admitted for them. *)
 Definition rowN := row N.
 Inductive case :=
-| KWire (blk : option (nat * nat)) (pt : ptable) (src tgt : nat) (k : pkind) (obs : oexc) (order : option (nat * nat))
-| KCond (n : nat) (ops : list (cond_op N)) (obs : list oexc) (built : list bool)
+| KWire (blk : option (nat * nat)) (pt : ptable) (src tgt : nat) (k : pkind) (obs : oexc)
+| KCond (n : nat) (ops : list (cond_op N)) (obs : list oexc)
 | KExit (outs : list rowN) (obs : list oexc)
 | KFnOut (declared : option rowN) (given : rowN) (obs : oexc)
 | KCall (k : pkind) (np : nat) (inst : bool) (nt : nat) (obs : oexc)
-| KPlainAdd (args : list arg) (obs : oexc) (grew : bool)
-| KTrackedIdx (tr : tracked) (i : Z) (obs : oexc) (changed : bool)
+| KPlainAdd (args : list arg) (obs : oexc)
+| KTrackedIdx (tr : tracked) (i : Z) (obs : oexc)
 | KSerialise (nodes : list (opfields N)) (obs : oexc).
 
 Definition eclass_eqb (a b : eclass) : bool :=
@@ -27,11 +34,51 @@ Definition eclass_eqb (a b : eclass) : bool :=
   | IndexError, IndexError | IncompleteOp, IncompleteOp | InvalidPort, InvalidPort | OutOfFuel, OutOfFuel => true
   | _, _ => false
   end.
-Definition oexc_eqb (a b : oexc) : bool :=
-  match a, b with XNone, XNone => true | XErr x, XErr y => eclass_eqb x y | XOther, XOther => true | _, _ => false end.
-Definition of_res {A} (r : res A) : oexc := match r with Ok _ => XNone | Err e => XErr e end.
-Definition of_status (s : option eclass) : oexc := match s with None => XNone | Some e => XErr e end.
-Definition onn_eqb : option (nat * nat) -> option (nat * nat) -> bool := option_eqb (pair_eqb Nat.eqb Nat.eqb).
+Definition is_err (o : oexc) : bool := match o with XNone => false | _ => true end.
+Definition is_none (o : oexc) : bool := match o with XNone => true | _ => false end.
+Definition of_res {A} (r : res A) : option eclass := match r with Ok _ => None | Err e => Some e end.
+
+(* "the documented one wherever one is documented": hugr-py documents a class for the sibling / CFG /
+   conditional / exit / instantiation / tracked-index / incomplete-op refusals (dedicated exception classes or
+   a Raises section).  The ValueErrors (a non-dataflow or non-function port, an integer in a plain builder,
+   outputs different from the declared ones) and the InvalidPort of port_kind are documented nowhere: there
+   the property demands an error, of any class. *)
+Definition documented (e : eclass) : bool := match e with ValueError | InvalidPort => false | _ => true end.
+
+(* what the property demands of one call *)
+Inductive demand :=
+| DAccept                          (* consistent: no error *)
+| DRefuse (classes : list eclass)  (* inconsistent: an error of one of these (documented) classes *)
+| DRefuseAny                       (* inconsistent: an error; no class is documented *)
+| DFree.                           (* outside the property: any outcome *)
+(* from the list of classes of the inconsistencies present (two at once may raise either) *)
+Definition refuse (classes : list eclass) : demand :=
+  match classes with
+  | [] => DAccept
+  | _ => if forallb documented classes then DRefuse classes else DRefuseAny
+  end.
+Definition meets (d : demand) (obs : oexc) : bool :=
+  match d with
+  | DAccept => is_none obs
+  | DRefuse cl => match obs with XErr e => existsb (eclass_eqb e) cl | _ => false end
+  | DRefuseAny => is_err obs
+  | DFree => true
+  end.
+(* the model's decision against the observed one, with the same reading of "documented" *)
+Definition agree (m : option eclass) (obs : oexc) : bool :=
+  match m with
+  | None => is_none obs
+  | Some e => if documented e then match obs with XErr x => eclass_eqb e x | _ => false end else is_err obs
+  end.
+Definition is_free (d : demand) : bool := match d with DFree => true | _ => false end.
+
+Definition sem (x : N) : N := (x / 16)%N.
+Definition sem_eqb (a b : N) : bool := N.eqb (sem a) (sem b).       (* Python's == *)
+Definition row_same : rowN -> rowN -> bool := list_eqb N.eqb.       (* same types, same spelling *)
+Definition row_sem_eqb : rowN -> rowN -> bool := list_eqb sem_eqb.
+(* two rows that must agree: clearly equal / clearly different / equal only up to spelling *)
+Definition rows_demand (a b : rowN) (cl : list eclass) : demand :=
+  if row_same a b then DAccept else if row_sem_eqb a b then DFree else refuse cl.
 
 Definition wire_model (blk : option (nat * nat)) pt src tgt k : res (option (nat * nat)) :=
   match blk with
@@ -40,107 +87,124 @@ Definition wire_model (blk : option (nat * nat)) pt src tgt k : res (option (nat
   end.
 Definition cond0 (n : nat) : cond N := mkCond (repeat false n) None.
 
-Definition corr (c : case) : bool :=
-  match c with
-  | KWire blk pt src tgt k obs order =>
-      let r := wire_model blk pt src tgt k in
-      oexc_eqb (of_res r) obs && match r with Ok o => onn_eqb o order | Err _ => true end
-  | KCond n ops obs built =>
-      let '(l, fin) := cond_run N N.eqb (cond0 n) ops in
-      list_eqb oexc_eqb (map of_status l) obs && list_eqb Bool.eqb (c_built fin) built
-  | KExit outs obs => list_eqb oexc_eqb (map of_status (fst (exit_run N N.eqb None outs))) obs
-  | KFnOut d g obs => oexc_eqb (of_res (fn_set_outputs N N.eqb d g)) obs
-  | KCall k np inst nt obs =>
-      match k with
-      | KInvalid => negb (oexc_eqb obs XNone)       (* port_kind itself refuses: any exception *)
-      | _ => oexc_eqb (of_res (dfg_call k np inst nt)) obs
-      end
-  | KPlainAdd args obs grew =>
-      let r := plain_add_decision args in
-      oexc_eqb (of_res r) obs && Bool.eqb grew (match r with Ok _ => true | Err _ => false end)
-  | KTrackedIdx tr i obs changed =>
-      let r := tracked_index_decision tr i in
-      oexc_eqb (of_res r) obs && match r with Err _ => negb changed | Ok _ => true end
-  | KSerialise nodes obs => oexc_eqb (of_res (serialise N nodes)) obs
-  end.
-
-(* ---- monitor: the inconsistency predicates of the specification decide what must be observed ---- *)
 Definition parent_first_b (pt : ptable) : bool :=
   forallb (fun n => match parent_of pt n with Some p => Nat.ltb p n | None => true end) (seq 0 (length pt)).
-(* obs must be an error of one of the listed classes when the list is not empty, and no error otherwise *)
-Definition expect (classes : list eclass) (obs : oexc) : bool :=
-  match classes with
-  | [] => oexc_eqb obs XNone
-  | _ => match obs with XErr e => existsb (eclass_eqb e) classes | _ => false end
-  end.
-Definition rowN_eqb : rowN -> rowN -> bool := list_eqb N.eqb.
 Definition kvalue_b (k : pkind) : bool := match k with KValue => true | _ => false end.
 Definition kfunction_b (k : pkind) : bool := match k with KFunction => true | _ => false end.
 
-(* specification of a conditional session, written on the history of accepted calls:
-   add_case i is consistent iff 0 <= i < n and no accepted add_case i came before; set_outputs r is
-   consistent iff every accepted set_outputs before gave r; exit iff all n cases were accepted *)
-Fixpoint cond_spec (n : nat) (added : list Z) (outs : option rowN) (ops : list (cond_op N)) : list (list eclass) :=
+(* ---- the specification's side: what each call must do ---- *)
+(* A source that has a parent and is itself an ancestor of the target (a container's own output port wired
+   into its own body) is formally "its own sibling"; whether that counts as an ancestor-sibling relation the
+   property text does not decide: any outcome.  A source WITHOUT parent (the root) has no sibling at all. *)
+Definition own_body_b (pt : ptable) (src tgt : nat) : bool :=
+  match parent_of pt src with
+  | None => false
+  | Some _ => existsb (Nat.eqb src) (ancestors_or_self pt tgt)
+  end.
+Definition wire_demand (blk : option (nat * nat)) (pt : ptable) (src tgt : nat) (k : pkind) : demand :=
+  if own_body_b pt src tgt then DFree else
+  let sib := sibling_ancestor_b pt src tgt in
+  let reach := match blk with
+               | None => sib
+               | Some (root, cfg) => sib || inside_cfg_b pt cfg src
+               end in
+  let e1 := if reach then [] else [match blk with None => NoSiblingAncestor | Some _ => NotInSameCfg end] in
+  let e2 := if kvalue_b k then [] else [ValueError] in
+  refuse (e1 ++ e2).
+
+(* a conditional session, written on the history of accepted calls:
+   add_case i is consistent iff 0 <= i < n and no accepted add_case i came before; set_outputs r (at most one
+   per case) must agree with the first accepted set_outputs; exit iff all n cases were accepted *)
+Fixpoint cond_spec (n : nat) (added : list Z) (outs : option rowN) (ops : list (cond_op N)) : list demand :=
   match ops with
   | [] => []
   | OAddCase i :: r =>
       if ((0 <=? i) && (i <? Z.of_nat n))%Z && negb (mem Z.eqb i added)
-      then [] :: cond_spec n (i :: added) outs r
-      else [ConditionalError] :: cond_spec n added outs r
+      then DAccept :: cond_spec n (i :: added) outs r
+      else DRefuse [ConditionalError] :: cond_spec n added outs r
   | OSetOutputs x :: r =>
       match outs with
-      | None => [] :: cond_spec n added (Some x) r
-      | Some y => if rowN_eqb x y then [] :: cond_spec n added outs r
-                  else [ConditionalError] :: cond_spec n added outs r
+      | None => DAccept :: cond_spec n added (Some x) r
+      | Some y => rows_demand y x [ConditionalError] :: cond_spec n added outs r
       end
   | OExit :: r =>
-      (if forallb (fun k => mem Z.eqb (Z.of_nat k) added) (seq 0 n) then [] else [ConditionalError])
+      (if forallb (fun k => mem Z.eqb (Z.of_nat k) added) (seq 0 n) then DAccept else DRefuse [ConditionalError])
       :: cond_spec n added outs r
   end.
-Fixpoint exit_spec (first : option rowN) (outs : list rowN) : list (list eclass) :=
+Fixpoint exit_spec (first : option rowN) (outs : list rowN) : list demand :=
   match outs with
   | [] => []
   | o :: r => match first with
-              | None => [] :: exit_spec (Some o) r
-              | Some f => (if rowN_eqb f o then [] else [MismatchedExit]) :: exit_spec first r
+              | None => DAccept :: exit_spec (Some o) r
+              | Some f => rows_demand f o [MismatchedExit] :: exit_spec first r
               end
   end.
+Definition fnout_demand (d : option rowN) (g : rowN) : demand :=
+  match d with Some r => rows_demand r g [ValueError] | None => DAccept end.
+(* surplus type arguments for a monomorphic function are outside the property (it speaks of polymorphic ones) *)
+Definition call_demand (k : pkind) (np : nat) (inst : bool) (nt : nat) : demand :=
+  match k with
+  | KInvalid => DRefuseAny                           (* port_kind itself refuses: any exception *)
+  | _ => if Nat.eqb np 0 && negb (Nat.eqb nt 0) then DFree else
+         refuse ((if kfunction_b k then [] else [ValueError]) ++
+                 (if negb (Nat.eqb np 0) && (negb inst || negb (Nat.eqb nt np)) then [NoConcreteFunc] else []))
+  end.
+Definition plainadd_demand (args : list arg) : demand :=
+  refuse (if existsb (fun a => match a with AI _ => true | AW _ => false end) args then [ValueError] else []).
+Definition tidx_demand (tr : tracked) (i : Z) : demand :=
+  let untracked := (i <? 0)%Z || match nth_error tr (Z.to_nat i) with Some (Some _) => false | _ => true end in
+  refuse (if untracked then [IndexError] else []).
+Definition serialise_demand (nodes : list (opfields N)) : demand :=
+  refuse (if existsb (existsb (fun f : option rowN => match f with None => true | Some _ => false end)) nodes
+          then [IncompleteOp] else []).
+
 Fixpoint all2 {A B} (f : A -> B -> bool) (a : list A) (b : list B) : bool :=
   match a, b with
   | [], [] => true
   | x :: r, y :: s => f x y && all2 f r s
   | _, _ => false
   end.
+(* model vs observation along a session; positions outside the property are not compared (neither outcome
+   changes the state the later calls read) *)
+Fixpoint agree_list (ds : list demand) (ms : list (option eclass)) (os : list oexc) : bool :=
+  match ds, ms, os with
+  | [], [], [] => true
+  | d :: ds', m :: ms', o :: os' => (is_free d || agree m o) && agree_list ds' ms' os'
+  | _, _, _ => false
+  end.
 
+(* ---- corr: the model's decision == the observed one (inside the property's domain) ---- *)
+Definition corr (c : case) : bool :=
+  match c with
+  | KWire blk pt src tgt k obs =>
+      is_free (wire_demand blk pt src tgt k) ||
+      match of_res (wire_model blk pt src tgt k) with
+      | None => is_none obs
+      | Some e => if kvalue_b k then agree (Some e) obs else is_err obs   (* two inconsistencies: either error *)
+      end
+  | KCond n ops obs => agree_list (cond_spec n [] None ops) (fst (cond_run N sem_eqb (cond0 n) ops)) obs
+  | KExit outs obs => agree_list (exit_spec None outs) (fst (exit_run N sem_eqb None outs)) obs
+  | KFnOut d g obs => is_free (fnout_demand d g) || agree (of_res (fn_set_outputs N sem_eqb d g)) obs
+  | KCall k np inst nt obs =>
+      is_free (call_demand k np inst nt) ||
+      match k with
+      | KInvalid => is_err obs
+      | _ => agree (of_res (dfg_call k np inst nt)) obs
+      end
+  | KPlainAdd args obs => agree (of_res (plain_add_decision args)) obs
+  | KTrackedIdx tr i obs => agree (of_res (tracked_index_decision tr i)) obs
+  | KSerialise nodes obs => agree (of_res (serialise N nodes)) obs
+  end.
+
+(* ---- mon: the specification's demand on the observed behaviour ---- *)
 Definition mon (c : case) : bool :=
   match c with
-  | KWire blk pt src tgt k obs order =>
-      parent_first_b pt &&
-      let sib := sibling_ancestor_b pt src tgt in
-      let reach := match blk with
-                   | None => sib
-                   | Some (root, cfg) => sib || inside_cfg_b pt cfg src
-                   end in
-      let e1 := if reach then [] else [match blk with None => NoSiblingAncestor | Some _ => NotInSameCfg end] in
-      let e2 := if kvalue_b k then [] else [ValueError] in
-      expect (e1 ++ e2) obs
-  | KCond n ops obs built => all2 expect (cond_spec n [] None ops) obs
-  | KExit outs obs => all2 expect (exit_spec None outs) obs
-  | KFnOut d g obs =>
-      expect (match d with Some r => if rowN_eqb r g then [] else [ValueError] | None => [] end) obs
-  | KCall k np inst nt obs =>
-      match k with
-      | KInvalid => negb (oexc_eqb obs XNone)
-      | _ => expect ((if kfunction_b k then [] else [ValueError]) ++
-                     (if negb (Nat.eqb np 0) && (negb inst || negb (Nat.eqb nt np)) then [NoConcreteFunc] else [])) obs
-      end
-  | KPlainAdd args obs grew =>
-      let has_int := existsb (fun a => match a with AI _ => true | AW _ => false end) args in
-      expect (if has_int then [ValueError] else []) obs && (negb has_int || negb grew)
-  | KTrackedIdx tr i obs changed =>
-      let untracked := (i <? 0)%Z || match nth_error tr (Z.to_nat i) with Some (Some _) => false | _ => true end in
-      expect (if untracked then [IndexError] else []) obs && (negb untracked || negb changed)
-  | KSerialise nodes obs =>
-      expect (if existsb (existsb (fun f : option rowN => match f with None => true | Some _ => false end)) nodes
-              then [IncompleteOp] else []) obs
+  | KWire blk pt src tgt k obs => parent_first_b pt && meets (wire_demand blk pt src tgt k) obs
+  | KCond n ops obs => all2 meets (cond_spec n [] None ops) obs
+  | KExit outs obs => all2 meets (exit_spec None outs) obs
+  | KFnOut d g obs => meets (fnout_demand d g) obs
+  | KCall k np inst nt obs => meets (call_demand k np inst nt) obs
+  | KPlainAdd args obs => meets (plainadd_demand args) obs
+  | KTrackedIdx tr i obs => meets (tidx_demand tr i) obs
+  | KSerialise nodes obs => meets (serialise_demand nodes) obs
   end.
